@@ -30,7 +30,7 @@
    theoremB_B / _V     the same with Rsat / Rdsat;
    theoremA'           conversely, a witness in the relation executes, in every frame, to the
                        satisfied / dissatisfied shape;
-   denot_exact_B / _V  execution <=> relation;
+   denot_exact_B / _V / _K / _W   execution <=> relation, for every base type;
    accepts_iff_Rsat    the script of a B fragment run as a witness script (clean stack, true top)
                        accepts w  <=>  Rsat m w;   dissat_iff_Rdsat likewise for one false value;
    R_functional        the value left, and whether it is a satisfaction, are functions of the witness;
@@ -38,6 +38,8 @@
    Rcan_R              canonical => accepted;
    Rcan_in_table       a canonical witness whose material is unambiguous is an entry of the table
                        computed from the assets the witness itself exhibits;
+   Rcan_in_table_of    the same, requiring unambiguity only for the keys ([dn_keys m]) and the hash
+                       images ([dn_imgs m]) of m ([uniq_material_of]);
    assets_of_ok        those assets are genuine (so Theorem A applies to that table);
    table_in_R          every table entry built from genuine assets is in the relation (Theorem A
                        composed with Theorem B; raw_pk_h excluded: the table lists nothing for it);
@@ -119,6 +121,23 @@ Theorem Denot_exact_V :
 Proof. exact denot_exact_V. Qed.
 Print Assumptions Denot_exact_V.
 
+Theorem Denot_exact_K :
+  forall (e : env) (ke : keyenv) (m : ms) (t : ty), type_of m = ROk t -> wf e ke m -> c_base (t_corr t) = BK ->
+  forall s w v, R e ke m s w v <->
+    exists c sg, w = c ++ [sg] /\ ksig e s v sg /\
+      forall rest al, exec e (enc ke m) (mkSt (c ++ rest) al) = Ok (mkSt (v :: rest) al).
+Proof. exact denot_exact_K. Qed.
+Print Assumptions Denot_exact_K.
+
+Theorem Denot_exact_W :
+  forall (e : env) (ke : keyenv) (m : ms) (t : ty), type_of m = ROk t -> wf e ke m -> c_base (t_corr t) = BW ->
+  forall s w v, R e ke m s w v <->
+    (truthy v = s /\ exists above : bool,
+       forall c0 rest al, exec e (enc ke m) (mkSt (c0 :: w ++ rest) al)
+                          = Ok (mkSt ((if above then [v; c0] else [c0; v]) ++ rest) al)).
+Proof. exact denot_exact_W. Qed.
+Print Assumptions Denot_exact_W.
+
 Theorem Accepts_iff_Rsat :
   forall (e : env) (ke : keyenv) (m : ms) (t : ty), type_of m = ROk t -> wf e ke m -> c_base (t_corr t) = BB ->
   forall w, accepts e (enc ke m) w = true <-> Rsat e ke m w.
@@ -155,6 +174,16 @@ Theorem Canonical_in_own_table :
   In w (if s then all_sat ke (assets_of e ke w) m else all_dsat ke (assets_of e ke w) m).
 Proof. exact Rcan_in_table. Qed.
 Print Assumptions Canonical_in_own_table.
+
+(* the same with the ambiguity hypothesis restricted to the keys and hash images OF m *)
+Theorem Canonical_in_own_table_of :
+  forall (e : env) (ke : keyenv) (m : ms) (s : bool) (w : wit) (v : bytes),
+  (forall kbs, e_sigok e kbs [] = false) -> (forall ks, length (ksort ke ks) = length ks) ->
+  (forall ks k, In k (ksort ke ks) -> In k ks) ->
+  uniq_material_of e ke m w -> Rcan e ke m s w v ->
+  In w (if s then all_sat ke (assets_of e ke w) m else all_dsat ke (assets_of e ke w) m).
+Proof. exact Rcan_in_table_of. Qed.
+Print Assumptions Canonical_in_own_table_of.
 
 Theorem Own_assets_genuine :
   forall (e : env) (ke : keyenv) (W : wit),
